@@ -339,6 +339,8 @@ def build_td7(run):
               target_delay=c.get("target_delay", 5),
               policy_delay=c.get("policy_delay", 2),
               exploration_noise=c.get("exploration_noise", 0.3),
+              target_policy_noise=c.get("target_policy_noise", 0.2),
+              noise_clip=c.get("noise_clip", 0.5),
               use_checkpoints=c.get("use_checkpoints", False),
               max_episodes_when_checkpointing=c.get(
                   "max_episodes_when_checkpointing", 3),
@@ -391,6 +393,8 @@ def build_mrq(run):
               target_delay=c.get("target_delay", 5),
               batch_size=c.get("batch_size", 4),
               exploration_noise=c.get("exploration_noise", 0.3),
+              target_policy_noise=c.get("target_policy_noise", 0.2),
+              noise_clip=c.get("noise_clip", 0.3),
               learning_starts=c.get("learning_starts", 10),
               encoder_horizon=eh, q_horizon=qh, replay_buffer=run.buffer,
               logger=_logger(run), global_step=c.get("global_step", 0),
